@@ -151,6 +151,9 @@ def parse_var_keywords(test_str: str) -> tuple[list[str], str]:
     # Needs to be this way and not simply call finditer because no regex can
     # capture nested parenthesis
     keyword_match = FRegex.KEYWORD_LIST.match(test_str)
+    if keyword_match is None:
+        test_str = skip_unknown_attributes(test_str)
+        keyword_match = FRegex.KEYWORD_LIST.match(test_str)
     keywords = []
     while keyword_match:
         tmp_str = re.sub(r"^[, ]*", "", keyword_match.group(0))
@@ -165,7 +168,41 @@ def parse_var_keywords(test_str: str) -> tuple[list[str], str]:
         tmp_str = re.sub(r"^[, ]*", "", tmp_str)
         keywords.append(tmp_str.strip().upper())
         keyword_match = FRegex.KEYWORD_LIST.match(test_str)
+        if keyword_match is None:
+            # An attribute that is not modelled (CODIMENSION[*], BIND(C), ...) must
+            # not hide the ones that follow it
+            test_str = skip_unknown_attributes(test_str)
+            keyword_match = FRegex.KEYWORD_LIST.match(test_str)
     return keywords, test_str
+
+
+def skip_unknown_attributes(test_str: str) -> str:
+    """Drop leading ``, NAME``, ``, NAME(...)`` and ``, NAME[...]`` attributes that
+    ``KEYWORD_LIST`` does not know, as long as a known one or ``::`` follows"""
+    rest = test_str
+    while "::" in rest and FRegex.KEYWORD_LIST.match(rest) is None:
+        attr = re.match(r"[ ]*,[ ]*[a-z_]\w*[ ]*", rest, re.I)
+        if attr is None:
+            break
+        rest = rest[attr.end(0) :]
+        if rest[:1] in ("(", "["):
+            closing = {"(": ")", "[": "]"}[rest[0]]
+            depth = 0
+            for i, char in enumerate(rest):
+                if char == rest[0]:
+                    depth += 1
+                elif char == closing:
+                    depth -= 1
+                    if depth == 0:
+                        rest = rest[i + 1 :]
+                        break
+            else:
+                return test_str  # Not closed on this line
+    if rest is test_str:
+        return test_str
+    if FRegex.KEYWORD_LIST.match(rest) or rest.lstrip().startswith("::"):
+        return rest
+    return test_str
 
 
 def set_char_len(desc: str, char_len: str) -> str:
@@ -267,7 +304,10 @@ def read_var_def(line: str, var_type: str | None = None, fun_only: bool = False)
     else:
         trailing_line = line[len(var_type) :]
     var_type = var_type.upper()
-    trailing_line = trailing_line.split("!")[0]
+    # A "!" inside a character literal (an initialiser) does not start a comment
+    i_comment = find_comment_start(trailing_line)
+    if i_comment >= 0:
+        trailing_line = trailing_line[:i_comment]
     if len(trailing_line) == 0:
         return None
 
